@@ -168,6 +168,7 @@ def build_pool(scn, world, sync):
         ctxf = lambda name: SSLContext(name)  # noqa: E731
     world.backend = backend
     kw, px = pool_kwargs(scn, backend, ctxf)
+    world.ssl_ctx = kw.get("ssl_context")
     if backend is None:
         kw.pop("network_backend", None)
     if px is not None:
@@ -541,6 +542,13 @@ async def caller_script(api, world, name, caller):
         elif k == "advance":
             world.now += op["d"]
             world.log("advance", op["d"])
+        elif k == "ctx_alpn":
+            # another user of the caller's ssl context (a second pool with other
+            # switches) sets its own ALPN list on it at this instant
+            ctx = getattr(world, "ssl_ctx", None)
+            if ctx is not None:
+                ctx.alpn = list(op["protos"])
+                world.log("ctx_alpn", tuple(op["protos"]))
         elif k == "close_pool":
             await api.close_pool()
             world.log("pool_closed", name)
